@@ -446,6 +446,7 @@ func (e *FnEnc) instr(in ssa.Instruction) {
 		e.setHeap(md, sx("store", e.heap(md), r, fmt.Sprintf("((as const (Array %s Bool)) false)", s.SortOf(mt.Key()))))
 		e.setHeap(MapLen, sx("store", e.heap(MapLen), r, "0"))
 		e.vals[i] = Val{T: r, Ty: i.Type()}
+		e.assume(sx("=", e.W.UF("mtype", []string{"Int"}, "Int", r), fmt.Sprint(e.W.TypeID(mt))))
 		if !mapEscapes(i) {
 			e.locals = append(e.locals, localRef{md.Name, r}, localRef{s.MapVal(mt.Key(), mt.Elem()).Name, r}, localRef{MapLen.Name, r})
 		}
